@@ -1,7 +1,7 @@
 (* CorrC19.v — correspondence checker for C19: evaluates the Audit.v model on the inputs the Go
    harness ran through real WAFs / the real formatter / the real parts functions and compares with
    what was observed. *)
-From Verif Require Import Base Audit.
+From Verif Require Import Base Audit AuditJson.
 Open Scope N_scope.
 
 (* what of the record the harness could observe *)
@@ -20,7 +20,12 @@ Inductive case :=
   (* nativeFormatter.Format on a Log; pre = "--" ++ random ++ "-" read off the output *)
   | CNative (pre : bytes) (l : alog) (out : bytes)
   (* a file written by the serial writer with the JSON formatter, and its lines as Go splits them *)
-  | CFile (file : bytes) (lines : list bytes).
+  | CFile (file : bytes) (lines : list bytes)
+  (* json.Marshal of a Go string, and what json.Unmarshal reads back from it *)
+  | CJStr (s out back : bytes)
+  (* jsonFormatter.Format on a Log: the record must start with the modelled head and end with the
+     modelled messages array *)
+  | CJDoc (h : jhead) (ms : list jmsg) (out : bytes).
 
 Fixpoint list_eqb {A} (eqb : A -> A -> bool) (a b : list A) : bool :=
   match a, b with
@@ -69,6 +74,13 @@ Definition ok (cs : case) : bool :=
     bytes_eqb (format_native pre l) out
     && list_eqb N.eqb (scan_lines pre out) (al_parts l)
   | CFile file lines => list_eqb bytes_eqb (split_lines [] file) lines
+  | CJStr s out back =>
+    bytes_eqb (js_string s) out
+    && match js_unquote out with Some (v, t) => bytes_eqb v back && bytes_eqb t [] | None => false end
+    && bytes_eqb (js_sanitize s) back
+  | CJDoc h ms out =>
+    is_prefix (json_head h) out && is_suffix (json_tail ms) out
+    && Nat.leb (length (json_head h) + length (json_tail ms)) (length out)
   end.
 
 Definition mismatches (l : list case) : list nat := mismatches_of ok l.
